@@ -94,12 +94,23 @@ Definition rejected (ev : option N) : outcome := mkO false false ev None.
 
 Definition is_nil {A} (l : list A) : bool := match l with [] => true | _ => false end.
 
+(* the (sender, nonce) slot of t is occupied and t does not satisfy the replacement rule (RejectsReplacement) *)
+Definition slot_rejects (c : cfg) (t : tx) (p : pool) : bool :=
+  match afind (tsender t) (accts p) with
+  | Some L => match afind (tnonce t) (txs L) with
+              | Some ex => (tfee t <? tfee ex) || (tfee t - tfee ex <? min_diff c)
+              | None => false
+              end
+  | None => false
+  end.
+
 Definition pool_add (c : cfg) (t : tx) (v : answer) (pub_ok : bool) (choice : list N) (p : pool) : pool * outcome :=
   if existsb (fun u => tid u =? tid t) (all p) then (p, rejected None)
   else if tprio t <? min_entrance c then (p, rejected None)
   else if (max_txs c <=? length (all p))%nat && negb (is_nil (queue p)) && (tprio t <=? min_prio (queue p))
        then (p, rejected None)
   else if is_invalid v then (p, rejected None)
+  else if slot_rejects c t p then (p, rejected None)
   else
     let '(p1, ev) := if (max_txs c <=? length (all p))%nat then evict choice p else (p, None) in
     let L := match afind (tsender t) (accts p1) with Some L => L | None => empty_list end in
